@@ -47,6 +47,9 @@ pub struct Session {
     extractor: Job<ExtractorCmd>,
     round: usize,
     files_extracted: bool,
+    /// Verification harness only: when set, tracker/extractor spawns are recorded, not performed.
+    #[cfg(feature = "verif")]
+    verif_spawned: Option<Vec<&'static str>>,
 }
 
 #[derive(Debug)]
@@ -129,6 +132,8 @@ impl Session {
             extractor: Job::new(extractor_tx, extractor_rx),
             round: 0,
             files_extracted: false,
+            #[cfg(feature = "verif")]
+            verif_spawned: None,
         }
     }
 
@@ -661,6 +666,11 @@ impl Session {
     }
 
     fn spawn_tracker(&mut self) {
+        #[cfg(feature = "verif")]
+        if let Some(log) = self.verif_spawned.as_mut() {
+            log.push("tracker");
+            return;
+        }
         let mut tracker = TrackerClient::new(
             &self.own_id,
             self.metainfo.clone(),
@@ -670,6 +680,11 @@ impl Session {
     }
 
     async fn spawn_extractor(&mut self) {
+        #[cfg(feature = "verif")]
+        if let Some(log) = self.verif_spawned.as_mut() {
+            log.push("extractor");
+            return;
+        }
         self.log("Starting file extractor".to_string()).await;
         let mut extractor = Extractor::new(self.metainfo.clone(), self.extractor.tx_ch.clone());
         self.extractor.job = Some(tokio::spawn(async move { extractor.run().await }));
@@ -909,5 +924,17 @@ impl Session {
 
     pub fn verif_files_extracted(&self) -> bool {
         self.files_extracted
+    }
+
+    /// From now on record tracker/extractor spawns instead of performing them.
+    pub fn verif_record_spawns(&mut self) {
+        self.verif_spawned = Some(vec![]);
+    }
+
+    pub fn verif_take_spawned(&mut self) -> Vec<&'static str> {
+        match self.verif_spawned.as_mut() {
+            Some(log) => std::mem::take(log),
+            None => vec![],
+        }
     }
 }
